@@ -24,17 +24,19 @@ async fn main() -> datafusion::error::Result<()> {
         // "Internal error: Left side produced no data to spill" instead of ResourcesExhausted / the result.
         let dir = std::env::temp_dir().join(format!("nlj_repro_{}", std::process::id()));
         std::fs::create_dir_all(&dir).unwrap();
-        let file = dir.join("a.parquet");
-        {
-            let batch = mk(vec![0, 1, 2], vec![-14, 0, 5]);
+        // `parts` files of 3 rows each (ids 10*f + 0..2)
+        for fno in 0..parts.max(1) as i64 {
+            let file = dir.join(format!("a{fno}.parquet"));
+            let batch = mk(vec![10 * fno, 10 * fno + 1, 10 * fno + 2], vec![-14, 0, 5]);
             let f = std::fs::File::create(&file).unwrap();
             let mut w = datafusion::parquet::arrow::ArrowWriter::try_new(f, batch.schema(), None).unwrap();
             w.write(&batch).unwrap();
             w.close().unwrap();
         }
-        ctx.register_parquet("pa", file.to_str().unwrap(), ParquetReadOptions::default()).await?;
+        ctx.register_parquet("pa", dir.to_str().unwrap(), ParquetReadOptions::default()).await?;
         ctx.register_table("pb", Arc::new(MemTable::try_new(schema.clone(), vec![vec![mk(vec![100, 101, 102], vec![-207, 3, 400])]])?))?;
-        let df = ctx.sql("SELECT pa.id, pb.id FROM pa JOIN pb ON pa.v < pb.v").await?;
+        let join_sql = std::env::args().nth(4).unwrap_or("SELECT pa.id, pb.id FROM pa JOIN pb ON pa.v < pb.v".to_string());
+        let df = ctx.sql(&join_sql).await?;
         println!("{}", datafusion::physical_plan::displayable(df.clone().create_physical_plan().await?.as_ref()).indent(true));
         let out = df.collect().await;
         println!("result: {:?}", out.map(|b| b.iter().map(|x| x.num_rows()).sum::<usize>()));
